@@ -519,7 +519,7 @@ var shimFuncs = map[string]string{
 	"os.WriteFile": "FSWriteFile", "os.ReadFile": "FSReadFile", "os.CreateTemp": "FSTempFile",
 	"path/filepath.Walk": "FSWalk", "path/filepath.Glob": "FSGlob",
 	"os/exec.Command": "Command",
-	"time.Now":        "Now", "time.Sleep": "Sleep",
+	"time.Now":        "Now", "time.Sleep": "Sleep", "time.After": "After",
 	"os.Exit": "Exit",
 }
 
